@@ -108,9 +108,10 @@ theorem asf_file_load_clean (f : Bytes) : ∀ e, loadAsf f = .error e → e = .m
   fun e h => asf_load_clean f e h
 
 /-- `MP4(fileobj)`: `Atoms`, `MP4Info.load`, `MP4Tags.load` up to the item payloads, with the `except Exception`
-handlers of `MP4.load` (chapters and the typed item parsers are not in the model) -/
+handlers of `MP4.load`, and `MP4Chapters` (mvhd timescale + Nero `chpl`); the typed item parsers are not in this model
+(they are in Model/Container/Mp4Reader.lean) -/
 theorem mp4_file_load_clean (f : Bytes) : ∀ e, loadMp4 f = .error e → e = .mutagen :=
-  mp4LoadPure_clean f
+  mp4LoadFullPure_clean f
 
 /-- `AAC(fileobj)` -/
 theorem aac_file_load_clean (f : Bytes) : ∀ e, loadAac f = .error e → e = .mutagen :=
